@@ -27,6 +27,21 @@ CHECKS = {
  "C13": ("fault_enumeration", "directory-listing invariant at quiescent points + online segment-ID monitor across crash generations",
          "After every acknowledged call of the golden run and after Open on every crash image the directory must hold exactly the files of segments in committed metadata; ID rules (never reused, never below a committed NextSegmentID, no Create of an uncommitted ID) are evaluated at every CommitState/Create over the whole lifetime of a directory including crash generations.",
          "same as C01", "E1 crashsim", "4 C13"),
+ "C05": ("exploration", "differential testing against a contiguous-log reference model after every step (exhaustive small-scope + random sequences)",
+         "All sequences to a depth bound over an 18-template alphabet for 12 (segment size, start index) geometries, plus seeded random sequences (some on the real filesystem with BoltDB); after every step the full observable state is compared with the model in the live WAL and in a reopened copy of the directory.",
+         "harness reference model (README rules); index 0 never used", "E4 model", "4 C05"),
+ "C12": ("exploration", "round-trip and aliasing monitors over generated logs, under the race detector",
+         "Codec round-trips over varint/size/time boundary classes, decode-input overwrite test, WAL StoreLogs->GetLog round-trips in-process and after reopen, re-comparison of returned logs after concurrent later reads (pooled buffers recycled), and the custom-codec reopen matrix (reserved IDs refused, same codec reopens, foreign codec refused).",
+         "Go race detector; simfs as the file system", "E4 model", "4 C12"),
+ "C15": ("exploration", "boundary-size sweep with accept=>readable / reject=>unchanged oracle",
+         "Entries whose encoded length is placed around 0, all padding residues, the 64KiB read buffer, the segment limit, larger than a segment and 64MiB+-k, in every batch position, several segment sizes; acknowledged entries must read back equal in-process and after reopen; refused calls must leave the log unchanged and usable; sizes <= 64MiB must not be refused.",
+         "simfs as the file system; sizes above 64MiB+4096 and batches near 4GiB not exercised", "E4 model", "4 C15"),
+ "C19": ("exploration", "differential copy check over store pairings with deterministic cancellation and fault wrappers",
+         "CopyLogs over all pairings of WAL / raft-boltdb v2 / InmemStore for generated sources and batchBytes classes, with cancellation at the n-th call and injected destination errors; CopyStable with standard and extra keys; destination must equal the source (or be a prefix with the context's error), progress channel closed.",
+         "raft.InmemStore and raft-boltdb behave as documented", "E4 model", "4 C19"),
+ "C20": ("exploration", "recording metrics collector compared with model totals at quiescence; call-site execution gate",
+         "Random operation sequences with a recording collector: every counter must equal the model's total at quiescence, every emitted name must be declared and must not panic the bundled AtomicCollector; verifier histories reach all verifier metrics; emitting call sites of the current source are enumerated and each must have been executed (else inconclusive).",
+         "model totals derived independently (rotations from segment IDs consumed)", "E4 model", "4 C20"),
 }
 
 NOT_YET = {}
@@ -63,6 +78,7 @@ def main():
             "add_only": True,
         },
         "engines": [
+            {"name": "E4 model", "path": "checks/c05.go c12.go c15.go c19.go c20.go, internal/model", "serves_properties": ["C05", "C12", "C15", "C19", "C20"], "kind_free_text": "sequential/differential monitors of the real code against small executable reference models"},
             {"name": "E1 crashsim", "path": "internal/crashsim, internal/simfs", "serves_properties": ["C01", "C02", "C03", "C04", "C13"], "kind_free_text": "production wal+segment over a crash/fault-simulating VFS+MetaStore; snapshots at every I/O boundary; crash images; model oracle"},
         ],
         "checks": checks,
